@@ -117,7 +117,7 @@ def clearly_inexpressible(s):
 
 def check_case(ctx, case, c, mr):
     pub = {k: v for k, v in case.items() if not k.startswith("_")}
-    ctx.seen(pub, len(case["specs"]) > 0)
+    ctx.seen(tc.seen_key(pub), len(case["specs"]) > 0)
     res = export(c)
     margin, r = mr
     mv = ser.canon(r)
@@ -244,9 +244,10 @@ def run(ctx):
                      (s[0] == "bsr" and (abs(s[2][2]) < 1e-7 or (abs(s[2][0]) < 1e-7 and abs(s[2][1]) < 1e-7)))]
         pre = rng.choice(pres)
         c = gen.build_circuit(nq, nb, specs)
-        if not tc.apply_pre(rng, c, pre):
+        applied = []
+        if not tc.apply_pre(rng, c, pre, applied):
             continue
-        cases.append({"nq": nq, "nb": nb, "specs": specs, "pre": pre})
+        cases.append({"nq": nq, "nb": nb, "specs": specs, "pre": pre, "pre_applied": applied})
         circuits.append(c)
     # the merged negated-axis form explicitly
     for a, b in ((-0.5, -0.25), (0.5, 0.25), (-3.0, -0.1), (1.0, -2.5)):
@@ -276,16 +277,15 @@ def run(ctx):
 
 
 def replay(ctx, payload):
-    import random
+    from harness import framework
 
-    case = payload.get("case") or (payload.get("first_disagreement") or {}).get("case")
+    suite, case = framework.replay_target(payload)
+    if case is None:
+        return framework.replay_nothing(payload)
     c = gen.build_circuit(case["nq"], case["nb"], case["specs"])
-    tc.apply_pre(random.Random(0), c, case.get("pre", []))
-    for h in case.get("history", []):
-        if h == "export":
-            export(c)
-        else:
-            implrun.apply_pass(c, list(h))
+    if not tc.replay_pre(c, case):
+        return {"fails": False, "note": "an earlier pass raised: the run skips such circuits (C01's concern)"}
+    tc.replay_history(c, case, export)
     mres = model.call_many([["export_qs", c.qubit_register_size, c.bit_register_size, ser.ser_stmts(c.ir.statements)]])
     check_case(ctx, case, c, mres[0])
-    return {"export": str(export(c))[:1000], "oracle_failures": ctx.oracle_failures, "fails": bool(ctx.oracle_failures)}
+    return framework.replay_result(ctx, export=str(export(c))[:1000])
